@@ -77,6 +77,9 @@ func (w *Proxy) checkC09Idle() {
 		if len(u.Unknown) > 0 || u.ParseErr != nil || u.Tainted {
 			continue // carried (what MOSN made of) malformed input: the actor's view of exchanges is meaningless
 		}
+		if u.ReqAfterClose > 0 {
+			s.Violate("C09", "reused_after_connection_close", "upstream connection c%d to %s answered with \"Connection: close\" and received %d more request(s) afterwards: the connection went back to the pool instead of being closed", u.Conn.ID, u.Host, u.ReqAfterClose)
+		}
 		if u.MaxInFlight > 1 || u.ReqAfterAbandon > 0 {
 			s.Violate("C09", "pingpong_not_exclusive", "upstream connection c%d to %s received a request while the previous exchange on it had not completed (%d times)", u.Conn.ID, u.Host, u.ReqAfterAbandon)
 		}
@@ -236,6 +239,42 @@ func (w *Proxy) checkC02() {
 		}
 		if len(r.Replies) > 1 {
 			s.Violate("C02", "duplicate_reply", "req#%d received %d replies", r.Idx, len(r.Replies))
+		}
+	}
+}
+
+// checkC02H2: the correlation oracle for HTTP/2 downstream connections (streams multiplexed on one
+// connection towards multiplexed upstream connections, under scripted upstream failures).
+func (w *Proxy) checkC02H2() {
+	s := w.S
+	for _, r := range w.H.Reqs {
+		n := 0
+		for _, rep := range r.Replies {
+			if rep.H == nil || rep.H.Status <= 0 {
+				continue // a stream reset, not a response
+			}
+			n++
+			w.Stats["c02_h2_replies_checked"]++
+			if rep.Tok == "" {
+				if rep.Success {
+					s.Violate("C02", "anonymous_success", "req#%d got a 200 response that carries no token (not produced by any upstream exchange)", r.Idx)
+				}
+				continue
+			}
+			if rep.Tok != r.Token {
+				oi := -1
+				if other := w.H.ByToken[rep.Tok]; other != nil {
+					oi = other.Idx
+				}
+				s.Violate("C02", "cross_talk", "req#%d (client %s, HTTP/2) received the response produced for req#%d", r.Idx, r.Client, oi)
+				continue
+			}
+			if len(rep.Body) > 0 && !bytes.HasPrefix(rep.Body, []byte(r.Token)) {
+				s.Violate("C02", "mixed_message", "req#%d: response header carries its token but the body does not (header and body from different exchanges)", r.Idx)
+			}
+		}
+		if n > 1 {
+			s.Violate("C02", "duplicate_reply", "req#%d received %d responses", r.Idx, n)
 		}
 	}
 }
